@@ -228,7 +228,9 @@ func (dec *Decoder) readLine() (string, error) {
 	return string(buf.Bytes()), nil
 }
 
-var lineRegexp = regexp.MustCompile(`^(\d) +(@[^@]+@ )?(\w+) ?(.*)?$`)
+// The level can have two digits: a GEDCOM line can be up to 99 levels deep and
+// the Encoder writes such levels.
+var lineRegexp = regexp.MustCompile(`^(\d{1,2}) +(@[^@]+@ )?(\w+) ?(.*)?$`)
 
 func parseLine(line string, document *Document, family *FamilyNode) (Node, int, error) {
 	parts := lineRegexp.FindStringSubmatch(line)
